@@ -37,6 +37,21 @@ Proof.
   intros B Sk M C. apply replan_plan_pending; assumption.
 Qed.
 
+(* the claimant of a deferred-choice group, cut between its claim and plan commits, is re-planned after recovery:
+   it still owns the claim row, it is not cancelled on account of the siblings it cancelled itself, and it never
+   pushes CancelStage for itself *)
+Theorem C01_choice_claimant_replanned : forall s id i k st g,
+  s_status st = RUNNING -> s_plan_pending st = true -> s_bypass st = false ->
+  should_skip st = false -> s_mutex st = None -> s_choice st = Some g ->
+  claim_lookup (w_claims s) false g = Some i ->
+  exists claimed planned,
+    h_commits (start_if_ready s id i k st false) =
+      [[OClaims (w_claims s); OPut i claimed]] ++ map (fun j => c_push (MCancelStage j)) (siblings_not_started s i g) ++
+      [[OPut i planned; OMark id] ++ c_pushes (first_msgs i st) ++ []]
+    /\ s_plan_pending planned = false /\ s_ctx planned = planned_ctx s st /\ s_status planned = RUNNING
+    /\ ~ In i (siblings_not_started s i g).
+Proof. exact replan_choice_claimant. Qed.
+
 Theorem C01_crash_commits_legal : forall orc s id k,
   running_task_in_running_stage s -> ~ delivers_jump s (DeliverCut id k) ->
   pairwise_legal s (step_trace orc s (DeliverCut id k)).
@@ -60,3 +75,4 @@ Proof. vm_compute. repeat split. Qed.
 Print Assumptions C01_crash_is_prefix.
 Print Assumptions C01_claim_plan_recovered.
 Print Assumptions C01_crash_commits_legal.
+Print Assumptions C01_choice_claimant_replanned.
